@@ -11,7 +11,7 @@ import os
 from vlib.common import Check, rng, run_case, pmap, workdir, cleanup, short
 
 CLASSES = ['PersistentThreadWorker', 'PersistentProcessWorker', 'PersistentRemoteWorker']
-STATES = ['never-used', 'results-unread', 'inputs-queued', 'closed', 'died-by-exception', 'killed', 'uncooperative', 'busy', 'slow-exit', 'slow-results', 'died-by-unrebuildable-exception']
+STATES = ['never-used', 'results-unread', 'inputs-queued', 'closed', 'died-by-exception', 'killed', 'uncooperative', 'busy', 'slow-exit', 'slow-results', 'died-by-unrebuildable-exception', 'busy-blocking']
 
 
 def kind_of(cls):
@@ -93,6 +93,11 @@ def case(spec, log):
             # incarnation's results are still arriving when restart() is called
             enq(kind='slowbox'); enq(kind='slowbox'); enq(kind='slowbox')
             time.sleep(0.3)
+        elif state == 'busy-blocking':
+            # busy in one blocking call after the other: a termination request is noticed within ~0.4 s, i.e. the
+            # worker can be stopped, only not within a very short restart timeout
+            enq(kind='block'); enq(kind='block'); enq(kind='block')
+            time.sleep(0.05)
         elif state == 'busy':
             enq(kind='slow')
             time.sleep(0.05)
@@ -204,7 +209,7 @@ def judge(chk, spec, res):
 def run(tier):
     thorough = tier == 'thorough'
     chk = Check('C17', 'exploration', tier,
-                'states at restart {never used, results unread, inputs queued, closed, died by exception, died by an exception that cannot be rebuilt in the parent, killed by signal, uncooperative target, busy, slow exit, results still arriving (slow to rebuild)} x 1-3 consecutive restarts x thread/process/remote x {own pipe, caller-supplied Pipe}; '
+                'states at restart {never used, results unread, inputs queued, closed, died by exception, died by an exception that cannot be rebuilt in the parent, killed by signal, uncooperative target, busy, busy in blocking calls (restart timeouts 0-0.3 s), slow exit, results still arriving (slow to rebuild)} x 1-3 consecutive restarts x thread/process/remote x {own pipe, caller-supplied Pipe}; '
                 'distinct non-trivial = distinct (class, state, restarts, pipe, between-hop states)')
     r = rng('c17')
     jobs = []
@@ -212,6 +217,10 @@ def run(tier):
         for state in STATES:
             for supplied in (False, True):
                 reps = [1, 2, 3] if thorough else [r.choice([1, 2, 3])]
+                if state == 'busy-blocking':
+                    for to in (0, 0.1, 0.3):
+                        jobs.append(dict(cls=cls, state=state, supplied_pipe=supplied, restarts=1, timeout=to, stray_window=0.05, between=['idle'] * 3))
+                    continue
                 if state == 'slow-results':
                     # the restart timeout relative to what the old incarnation still needs matters here
                     for to in (0.3, 1, 1.5, 2.5):
